@@ -25,7 +25,15 @@ func RefDistance(metric string, q, v []float32) (ref, tol float64, err error) {
 			d := float64(q[i]) - float64(v[i])
 			s += d * d
 		}
-		return s, (n+8)*2*u32*s + n*1e-42, nil
+		tol := (n+8)*2*u32*s + n*1e-42
+		// a float32 implementation overflows to +Inf beyond MaxFloat32; right at the edge either is fine
+		switch {
+		case s-tol > math.MaxFloat32:
+			return math.Inf(1), 0, nil
+		case s+tol > math.MaxFloat32:
+			return s, math.Inf(1), nil
+		}
+		return s, tol, nil
 	case models.DistanceDot, models.DistanceCosine:
 		var s, a float64
 		for i := range q {
@@ -189,7 +197,17 @@ func (o *VecOracle) Distance(q, v []float32, code []byte) (ref, tol float64, err
 			sum += r
 			tolSum += t + math.Abs(r)*2*u32
 		}
-		return sum, tolSum + math.Abs(sum)*float64(p.NumSub)*u32, nil
+		tol := tolSum + math.Abs(sum)*float64(p.NumSub)*u32
+		// the float32 sum of the sub-distances overflows to an infinity beyond MaxFloat32
+		if !math.IsInf(sum, 0) && !math.IsNaN(tol) {
+			switch {
+			case math.Abs(sum)-tol > math.MaxFloat32:
+				return math.Inf(int(math.Copysign(1, sum))), 0, nil
+			case math.Abs(sum)+tol > math.MaxFloat32:
+				return sum, math.Inf(1), nil
+			}
+		}
+		return sum, tol, nil
 	default:
 		return RefDistance(o.Metric, q, v)
 	}
